@@ -21,6 +21,8 @@ RULE = (
     "detections against an independent recursive-descent parser. Non-trivial = >= 2 operators, or a "
     "name that starts with a keyword or underscore, or a selector; distinct by SHA-1 of the case."
 )
+RULE += (" A fourth generator draws large cases: 10-40 detections, flat chains of 10-60 operands, right-nesting up to depth 12, chains of up to 12 parenthesised groups.")
+RULE += (" Blanks between tokens are spaces, tabs and line breaks (bare, as in a YAML literal block).")
 RULE += (" " + "The name pool also holds names with a hyphen directly after a keyword (not-admin, and-x, or-1, all-of-x) and the names '-' and '-admin'.")
 ASSUMPTIONS = [
     "the reference parser in vf/ref/conditions.py is the Sigma condition grammar (self-checked "
@@ -200,6 +202,8 @@ def run(ctx) -> None:
             names = list(dict.fromkeys(names))
             leaves = [names[i % len(names)] for i in range(nleaf)]
             ctx.do({"names": names, "cond": fill(toks, leaves)})
+            if idx % 3 == 0:  # the same shape with line breaks / tabs / double blanks as separators
+                ctx.do({"names": names, "cond": fill(toks, leaves, ["\n", "\t", "  "][(idx // 3) % 3])})
     # (b) all leaf-kind assignments for <= 2 operators
     for ns in sets[:6 if ctx.tier == "quick" else len(sets)]:
         kinds = ns + selectors_for(ns)[:8 if ctx.tier == "quick" else 30]
@@ -218,6 +222,8 @@ def run(ctx) -> None:
     )
     # (c) random larger expressions
     ctx.hyp(random_cases(), 400 if ctx.tier == "quick" else 4000)
+    # (d) large sizes
+    ctx.hyp(big_cases(), 40 if ctx.tier == "quick" else 600, salt=4)
 
 
 @st.composite
@@ -227,7 +233,7 @@ def random_cases(draw):
     leaf = st.sampled_from(names + sels[:12]) if sels else st.sampled_from(names)
 
     def extend(children):
-        sp = st.sampled_from([" ", "  ", "   "])
+        sp = st.sampled_from([" ", " ", "  ", "   ", "\n", "\t", " \n  ", "\r\n"])
         return st.one_of(
             st.tuples(sp, children).map(lambda t: "not" + t[0] + t[1]),
             st.tuples(children, sp, st.sampled_from(["and", "or"]), sp, children).map("".join),
@@ -236,6 +242,38 @@ def random_cases(draw):
         )
 
     cond = draw(st.recursive(leaf, extend, max_leaves=10))
+    return {"names": names, "cond": cond}
+
+
+@st.composite
+def big_cases(draw):
+    """Beyond the small sizes: 10-40 detections, flat chains of 10-60 operands, nesting up to depth 12."""
+    n = draw(st.integers(10, 40))
+    names = list(dict.fromkeys(draw(st.lists(st.sampled_from(POOL), min_size=3, max_size=10, unique=True)) + [f"sel_{i}" for i in range(n)]))
+    sels = selectors_for(names)[:10] + ["1 of sel_*", "all of sel_1*", "any of sel_2*", "all of them"]
+    leaf = st.sampled_from(names + names + sels)
+    neg = st.tuples(st.sampled_from(["", "", "", "not "]), leaf).map("".join)
+    shape = draw(st.integers(0, 2))
+    if shape == 0:  # long flat chain
+        k = draw(st.integers(10, 60))
+        cond = draw(neg)
+        for _ in range(k):
+            cond += f" {draw(st.sampled_from(['and', 'or']))} {draw(neg)}"
+    elif shape == 1:  # right-nested
+        depth = draw(st.integers(5, 12))
+        cond = draw(neg)
+        for _ in range(depth):
+            cond = f"{draw(neg)} {draw(st.sampled_from(['and', 'or']))} {draw(st.sampled_from(['', 'not ']))}({cond})"
+    else:  # chains of parenthesised groups
+        groups = []
+        for _ in range(draw(st.integers(3, 12))):
+            g = draw(neg)
+            for _ in range(draw(st.integers(1, 5))):
+                g += f" {draw(st.sampled_from(['and', 'or']))} {draw(neg)}"
+            groups.append(draw(st.sampled_from(["", "not "])) + "(" + g + ")")
+        cond = groups[0]
+        for g in groups[1:]:
+            cond += f" {draw(st.sampled_from(['and', 'or']))} {g}"
     return {"names": names, "cond": cond}
 
 
